@@ -20,6 +20,7 @@ import (
 	"hash/crc32"
 	"os"
 	"path/filepath"
+	"strings"
 	"testing"
 
 	"pgregory.net/rapid"
@@ -316,6 +317,95 @@ func c04Variants(h *verifJHist, otherIdx []byte, seed uint64) []c04Variant {
 	return vs
 }
 
+// c04FindingFor says which reported finding (if any) explains a difference caused by variant y
+// of the honest index X. When known_findings.json lists that id as open, the difference is
+// reported as KNOWN-FINDING and excluded; otherwise it is a violation like any other.
+// (VERIFJ_ASSUME_OPEN=id,id is a development aid with the same effect.)
+//   C04-index-lookup-range-unchecked: y differs from X only inside offset/length fields of
+//     lookups (no checksum covers them);
+//   C04-index-forged-address-trusted: y differs from X only inside lookup address fields and
+//     batch checksum fields, and every batch checksum of y is right for y's addresses; or only
+//     inside batch end-offset and root-hash fields, every batch end of y naming a real root
+//     record of the journal with that root (an internally consistent forgery).
+func c04FindingFor(h *verifJHist, y []byte) string {
+	X := h.finalIdx
+	if len(X) != len(y) || bytes.Equal(X, y) {
+		return ""
+	}
+	recs, batches := c04Parse(X)
+	field := make([]byte, len(X)) // 'r' range field, 'a' address field, 'c' checksum field, 0 other
+	for _, rc := range recs {
+		if rc.meta {
+			for i := 9; i < 17; i++ {
+				field[rc.off+i] = 'e'
+			}
+			for i := 17; i < 21; i++ {
+				field[rc.off+i] = 'c'
+			}
+			for i := 21; i < c04MetaSz; i++ {
+				field[rc.off+i] = 'e'
+			}
+			continue
+		}
+		for i := 1; i < 17; i++ {
+			field[rc.off+i] = 'a'
+		}
+		for i := 17; i < c04LookupSz; i++ {
+			field[rc.off+i] = 'r'
+		}
+	}
+	onlyRange, onlyAddr, onlyEnd := true, true, true
+	for i := range X {
+		if X[i] != y[i] {
+			onlyRange = onlyRange && field[i] == 'r'
+			onlyAddr = onlyAddr && (field[i] == 'a' || field[i] == 'c')
+			onlyEnd = onlyEnd && field[i] == 'e'
+		}
+	}
+	if onlyEnd {
+		for _, b := range batches {
+			m := recs[b[1]].off
+			end := int64(binary.BigEndian.Uint64(y[m+9:]))
+			ok := false
+			for _, q := range h.recs {
+				if q.kind == 1 && q.off == end && bytes.Equal(q.addr[:], y[m+21:m+41]) {
+					ok = true
+				}
+			}
+			if !ok {
+				return ""
+			}
+		}
+		return "C04-index-forged-address-trusted"
+	}
+	if onlyRange {
+		return "C04-index-lookup-range-unchecked"
+	}
+	if onlyAddr {
+		for _, b := range batches {
+			z := c04Clone(y)
+			c04FixCrc(z, recs, b)
+			if !bytes.Equal(z, y) {
+				return ""
+			}
+		}
+		return "C04-index-forged-address-trusted"
+	}
+	return ""
+}
+
+func verifJFindingOpen(property, id string) bool {
+	if id == "" {
+		return false
+	}
+	for _, s := range strings.Split(os.Getenv("VERIFJ_ASSUME_OPEN"), ",") {
+		if s == id {
+			return true
+		}
+	}
+	return vh.OpenFinding(property, id)
+}
+
 type c04Ctx struct {
 	rt    *rapid.T
 	h     *verifJHist
@@ -419,6 +509,12 @@ func c04Case(rt *rapid.T, rec *vh.Recorder, base string) {
 	jsum := sha256.Sum256(h.J)
 	_, batches := c04Parse(h.finalIdx)
 	vs := c04Variants(h, h2.finalIdx, seed)
+	known := map[string]int{}
+	defer func() {
+		for id, n := range known {
+			vh.ReportKnown("C04", id, fmt.Sprintf("%d index variants of this class change what the store shows (journal %x)", n, jsum[:6]))
+		}
+	}()
 	for vi, v := range vs {
 		modes := []bool{(vi+int(seed))%2 == 0}
 		if v.class != "truncated" || vi%5 == 0 {
@@ -429,6 +525,11 @@ func c04Case(rt *rapid.T, rec *vh.Recorder, base string) {
 			what := fmt.Sprintf("index variant [%s] (%d B; honest index %d B, %d batches), %s open", v.name, len(v.idx), len(h.finalIdx), len(batches), mode)
 			got := x.observe(what, v.idx, ro, false)
 			if d := verifJViewDiff(x.ref, got, x.addrs); d != "" {
+				if id := c04FindingFor(h, v.idx); verifJFindingOpen("C04", id) {
+					known[id]++
+					rec.Excluded(1)
+					continue
+				}
 				rt.Fatalf("%s differs from the index-free open (index-free vs with index): %s", what, d)
 			}
 			if !ro && (vi+int(seed>>8))%3 == 0 {
